@@ -37,6 +37,14 @@ THEOREMS = [
     "Qentem.Props.C09.real_within_one_ulp_negexp",
     "Qentem.Props.C09.real_within_one_ulp_frac_end",
     "Qentem.Props.C09.real_within_one_ulp_frac_exp",
+    "Qentem.Round.nearestBits_eq",
+    "Qentem.Props.C11P.parse_exact_fixed",
+    "Qentem.Props.C11P.parse_exact_int",
+    "Qentem.Props.C11P.parse_exact_small",
+    "Qentem.Props.C11P.parse_exact_sci",
+    "Qentem.Props.C11P.parse_exact17",
+    "Qentem.Props.C11P.parsesExactly17_partial",
+    "Qentem.Props.C11P.roundtrip17_of_formatter",
 ]
 OPEN = ["Qentem.Props.C09.real_within_one_ulp (proved for: integer mantissa <= 19 digits with exponent >= 0; integer mantissa with negative exponent and d1.ddd[e+-k] numerals (<= 18 digits, fraction not the single digit 0) under 2^(X/27) <= 16*mantissa; open for 0.ddd / .ddd, '1.0'-style fractions, mantissas beyond the 19-unit window, tiny mantissas beyond e-134; searched by the exact-Rat oracle on the C++ results)",
         "Qentem.Props.C09.overflow_reported (proved inside the class theorems: NotANumber only when the value really exceeds every finite double, never a finite pattern above max; open outside the class)"]
@@ -283,7 +291,7 @@ def embed(text, rng, mode):
 
 def run(ctx):
     ctx.gen_constants(["StrToNum"])
-    ctx.prove(["Qentem.Props.C09"], THEOREMS, open_statements=OPEN)
+    ctx.prove(["Qentem.Props.C09", "Qentem.Props.C11Parser"], THEOREMS, open_statements=OPEN)
     drv = ctx.build_driver()
     exe = ctx.build_harness("strtonum_harness.cpp")
     if not (drv and exe):
